@@ -40,7 +40,8 @@ Out0 == [state |-> "", processed |-> <<>>, notProcessed |-> <<>>, kind |-> ""]
 TInit ==
   /\ l = 1 /\ okf = TRUE /\ scn = "" /\ live = FALSE
   /\ n = 0 /\ E = {} /\ C = {} /\ cnt = <<>> /\ readyQ = <<>> /\ readyTx = FALSE /\ doneQ = <<>> /\ doneTx = FALSE
-  /\ qRem = 0 /\ qDone = FALSE /\ sRem = 0 /\ processed = <<>> /\ is = IS0 /\ intRun = 0
+  /\ qRem = 0 /\ qDone = FALSE /\ sRem = 0 /\ processed = <<>> /\ is = IS0 /\ intRun = 0 /\ pulled = <<>>
+  /\ pullsAfterSig = 0
   /\ running = {} /\ open = <<>> /\ started = <<>> /\ ended = {} /\ failed = {} /\ errors = <<>>
   /\ sigChan = FALSE /\ sigSent = FALSE /\ afterSig = 0
   /\ sEnded = FALSE /\ sDone = FALSE /\ foldErr = 0 /\ returned = FALSE /\ outcome = Out0 /\ panicked = FALSE
@@ -53,18 +54,18 @@ TReset ==
   /\ (scn # "" => Verdict)
   /\ scn' = Rec[l].scn /\ okf' = TRUE /\ live' = FALSE /\ Step
   /\ n' = Rec[l].n
-  /\ UNCHANGED <<E, C, cnt, readyQ, readyTx, doneQ, doneTx, qRem, qDone, sRem, processed, is, intRun, running, open,
-                 started, ended, failed, errors, sigChan, sigSent, afterSig, sEnded, sDone, foldErr, returned, outcome,
-                 panicked, hist>>
+  /\ UNCHANGED <<E, C, cnt, readyQ, readyTx, doneQ, doneTx, qRem, qDone, sRem, processed, is, intRun, pulled, running, open,
+                 started, ended, failed, errors, sigChan, sigSent, afterSig, pullsAfterSig, sEnded, sDone, foldErr, returned,
+                 outcome, panicked, hist>>
 
 TBuild ==
   /\ IsEv("build") /\ okf
   /\ LET S == { <<Rec[l].edges[i][1], Rec[l].edges[i][2]>> : i \in DOMAIN Rec[l].edges } IN
      E' = S /\ C' = Closure(n, S)
   /\ Step /\ Keep
-  /\ UNCHANGED <<n, cnt, readyQ, readyTx, doneQ, doneTx, qRem, qDone, sRem, processed, is, intRun, running, open,
-                 started, ended, failed, errors, sigChan, sigSent, afterSig, sEnded, sDone, foldErr, returned, outcome,
-                 panicked, hist>>
+  /\ UNCHANGED <<n, cnt, readyQ, readyTx, doneQ, doneTx, qRem, qDone, sRem, processed, is, intRun, pulled, running, open,
+                 started, ended, failed, errors, sigChan, sigSent, afterSig, pullsAfterSig, sEnded, sDone, foldErr, returned,
+                 outcome, panicked, hist>>
 
 TCall ==
   /\ IsEv("call") /\ okf /\ ~live
@@ -76,7 +77,8 @@ TCall ==
      /\ Range(su.preload) = { f \in 1..n : c0[f] = 0 } /\ Len(su.preload) = Cardinality(Range(su.preload))
      /\ cnt' = c0 /\ readyQ' = su.preload
   /\ readyTx' = (n > 0) /\ doneQ' = <<>> /\ doneTx' = (n > 0)
-  /\ qRem' = n /\ qDone' = FALSE /\ sRem' = n /\ processed' = <<>> /\ is' = IS0 /\ intRun' = 0
+  /\ qRem' = n /\ qDone' = FALSE /\ sRem' = n /\ processed' = <<>> /\ is' = IS0 /\ intRun' = 0 /\ pulled' = <<>>
+  /\ pullsAfterSig' = 0
   /\ running' = {} /\ open' = <<>> /\ started' = <<>> /\ ended' = {} /\ failed' = {} /\ errors' = <<>>
   /\ sigChan' = (PreSig /\ HasChannel(Strategy)) /\ sigSent' = FALSE /\ afterSig' = 0
   /\ sEnded' = FALSE /\ sDone' = FALSE /\ foldErr' = 0 /\ returned' = FALSE /\ outcome' = Out0 /\ panicked' = FALSE
@@ -84,27 +86,47 @@ TCall ==
   /\ live' = TRUE /\ l' = l + 2
   /\ UNCHANGED <<n, E, C, okf, scn>>
 
-(* the ready stream handed an item to the scheduler's closure *)
-TPull ==
-  /\ IsHook("item") /\ okf /\ live
+(* fold bodies: the item is handed to the fold closure in the same step (hook `item`, then `start`) *)
+TPullFold ==
+  /\ IsFoldApi /\ IsHook("item") /\ okf /\ live
   /\ SPull
   /\ LET e == Rec[l] IN
      IF e.f # 0
-     THEN /\ Len(started') = Len(started) + 1 /\ started'[Len(started')] = e.f      \* this function was handed out
+     THEN /\ Len(started') = Len(started) + 1 /\ started'[Len(started')] = e.f
           /\ (e.interrupted <=> intRun' = e.f)
           /\ Has(l + 1) /\ Rec[l+1].ev = "start" /\ Rec[l+1].f = e.f
           /\ l' = l + 2
      ELSE /\ started' = started /\ e.interrupted
-          /\ sEnded' = FALSE /\ is'.ntf /\ ~is.ntf                                  \* an Interrupted item without function
+          /\ sEnded' = FALSE /\ is'.ntf /\ ~is.ntf
           /\ l' = l + 1
+  /\ Keep
+
+(* for_each bodies: the ready stream hands a function over (hook `ready_recv`); the item future is pushed *)
+TPull ==
+  /\ ~IsFoldApi /\ IsHook("ready_recv") /\ okf /\ live
+  /\ SPull
+  /\ Len(pulled') = Len(pulled) + 1 /\ pulled'[Len(pulled')].f = Rec[l].f
+  /\ Step /\ Keep
+
+(* ... and its first poll: hook `item`, then the harness' `start` *)
+TStart ==
+  /\ ~IsFoldApi /\ IsHook("item") /\ okf /\ live
+  /\ SStart
+  /\ LET e == Rec[l]  it == Head(pulled) IN
+     /\ it.f = e.f /\ it.int = e.interrupted
+     /\ IF e.f # 0
+        THEN Has(l + 1) /\ Rec[l+1].ev = "start" /\ Rec[l+1].f = e.f /\ l' = l + 2
+        ELSE l' = l + 1
   /\ Keep
 
 TFinish ==
   /\ IsEv("end") /\ okf /\ live
   /\ LET f == Rec[l].f  ok == Rec[l].ok
+         \* the function sent the interrupt itself: the harness logged `signal{inside: f}` just before `end`
+         sig == l > 1 /\ Rec[l-1].ev = "signal" /\ "inside" \in DOMAIN Rec[l-1] /\ Rec[l-1].inside = f
          sends == ok /\ doneTx                               \* fn_done_send is reached with a sender
          nxt == Has(l + 1) /\ Rec[l+1].ev = "done_send"
-     IN /\ SFinishCore(f, ok)
+     IN /\ SFinishCore(f, ok, sig)
         /\ open' = open
         /\ (sends <=> nxt)
         /\ (nxt => Rec[l+1].f = f /\ Rec[l+1].sent)
@@ -121,9 +143,13 @@ TQRecv ==
   /\ Step /\ Keep
 
 TSignal ==
-  /\ IsEv("signal") /\ okf /\ live
+  /\ IsEv("signal") /\ okf /\ live /\ "inside" \notin DOMAIN Rec[l]      \* (an inside signal belongs to the next `end`)
   /\ EnvSignal
   /\ Step /\ Keep
+
+TSignalInside ==
+  /\ IsEv("signal") /\ okf /\ live /\ "inside" \in DOMAIN Rec[l]
+  /\ Step /\ Frozen /\ Keep
 
 KindOf(k) == IF k = "outcome" THEN "outcome" ELSE k
 
@@ -151,11 +177,13 @@ Silent ==
   /\ okf /\ live /\ Has(l)
   /\ \/ QEnd
      \/ SEnd
-     \/ (SPull /\ started' = started /\ (sEnded' \/ is'.ntf = is.ntf))   \* ready stream polled: Pending or end
+     \/ (SPull /\ started' = started /\ pulled' = pulled /\ (sEnded' \/ is'.ntf = is.ntf))   \* ready stream polled: Pending or end
+     \* for_each, include = FALSE: an Interrupted(Some f) item is filtered before any hook fires
+     \/ (~IsFoldApi /\ SPull /\ Len(pulled') = Len(pulled) + 1 /\ pulled'[Len(pulled')].f = 0)
   /\ UNCHANGED <<l, okf, scn, live>>
 
 Matched == {"reset", "build", "call", "end", "signal", "return", "abort"}
-MatchedHooks == {"item", "q_recv"}
+MatchedHooks == IF IsFoldApi THEN {"item", "q_recv"} ELSE {"item", "q_recv", "ready_recv"}
 
 TSkip ==
   /\ Has(l)
@@ -173,7 +201,8 @@ TDrift ==
 
 TEnd == l = Len(Rec) + 1 /\ scn # "" /\ Verdict /\ l' = l + 1 /\ Frozen /\ Keep
 
-TNext == TReset \/ TBuild \/ TCall \/ TPull \/ TFinish \/ TQRecv \/ TSignal \/ TReturn \/ TAbort \/ Silent \/ TSkip \/ TEnd
+TNext == TReset \/ TBuild \/ TCall \/ TPullFold \/ TPull \/ TStart \/ TFinish \/ TQRecv \/ TSignal \/ TSignalInside
+         \/ TReturn \/ TAbort \/ Silent \/ TSkip \/ TEnd
 TNextD == TNext \/ (~ENABLED TNext /\ TDrift)
 
 TSpec == TInit /\ [][TNextD]_tvars
